@@ -8,6 +8,7 @@ package main
 import (
 	"go/constant"
 	"go/token"
+	"go/types"
 	"strings"
 
 	"golang.org/x/tools/go/ssa"
@@ -120,6 +121,99 @@ func ruleHelperRegistration(r *Run) {
 		}
 		return false
 	}
+	// registersName: the string value v (one added name) is passed as field name to
+	// ScrubFields.Set — directly, through a one-element list, or through a callee's parameter.
+	var registersName func(v ssa.Value, depth int) bool
+	registersName = func(v ssa.Value, depth int) bool {
+		if depth > 3 || v.Referrers() == nil {
+			return false
+		}
+		for _, ref := range *v.Referrers() {
+			switch x := ref.(type) {
+			case *ssa.Store:
+				if x.Val != v {
+					continue
+				}
+				switch a := x.Addr.(type) {
+				case *ssa.IndexAddr: // `[]string{added}`: the array is sliced and handed on
+					if al, ok := a.X.(*ssa.Alloc); ok {
+						for _, r2 := range *al.Referrers() {
+							if sl, ok := r2.(*ssa.Slice); ok && registers(sl, depth+1) {
+								return true
+							}
+						}
+					}
+				case *ssa.Alloc:
+					for _, i2 := range allInstrs(a.Parent()) {
+						if ld, ok := i2.(*ssa.UnOp); ok && ld.Op == token.MUL && ld.X == ssa.Value(a) && registersName(ld, depth+1) {
+							return true
+						}
+					}
+				}
+			case ssa.CallInstruction:
+				if c, ok := isSetCall(x); ok && len(c.Args) == 4 && c.Args[3] == v {
+					return true
+				}
+				for _, e := range r.P.CG.Out[x.Parent()] {
+					if e.Site != x || e.Kind != "static" {
+						continue
+					}
+					for i, a := range x.Common().Args {
+						if a == v && i < len(e.Callee.Params) && registersName(e.Callee.Params[i], depth+1) {
+							return true
+						}
+					}
+				}
+			}
+		}
+		return false
+	}
+	// R13a.flow: a set of registrations that a callee hands back is not dropped — it is merged,
+	// returned or otherwise used by whoever asked for it
+	nf := 0
+	for _, fn := range r.P.Funcs {
+		if topFn(fn).Pkg == nil || topFn(fn).Pkg.Pkg.Path() != plannerPkg {
+			continue
+		}
+		for _, ins := range allInstrs(fn) {
+			c, ok := ins.(*ssa.Call)
+			if !ok {
+				continue
+			}
+			sc := c.Call.StaticCallee()
+			if sc == nil || c.Call.IsInvoke() || !inModule(sc) {
+				continue
+			}
+			res := sc.Signature.Results()
+			for i := 0; i < res.Len(); i++ {
+				if namedOf(res.At(i).Type()) != plannerPkg+".ScrubFields" {
+					continue
+				}
+				nf++
+				used := false
+				for _, ref := range *c.Referrers() {
+					if _, dbg := ref.(*ssa.DebugRef); dbg {
+						continue
+					}
+					if res.Len() == 1 {
+						used = true
+						continue
+					}
+					if ex, ok := ref.(*ssa.Extract); ok && ex.Index == i {
+						for _, r2 := range *ex.Referrers() {
+							if _, dbg := r2.(*ssa.DebugRef); !dbg {
+								used = true
+							}
+						}
+					}
+				}
+				r.Check(used, "R13a.flow", fnName(fn), "uses the registrations returned by "+fnName(sc), r.P.pos(c.Pos()),
+					"the returned ScrubFields is merged or handed on", "the helper registrations that "+fnName(sc)+" returns are thrown away here: the helpers it added below this point (fields inside a fragment) are fetched for stitching but never reach the plan's ScrubFields, so they stay in the client's response")
+			}
+		}
+	}
+	r.AtLeast("R13a.flow", "calls that return ScrubFields", nf, 3)
+
 	m := 0
 	for s, names := range synth {
 		for _, e := range r.P.CG.In[s] {
@@ -154,6 +248,46 @@ func ruleHelperRegistration(r *Run) {
 						reported = true
 					}
 				}
+			}
+			// (a') or g reports each addition to a callback it was given: register(name) after the call
+			cbIdx := -1
+			if !reported {
+				for i, p := range g.Params {
+					sig, isSig := p.Type().Underlying().(*types.Signature)
+					if !isSig || sig.Params().Len() != 1 || shortType(sig.Params().At(0).Type()) != "string" {
+						continue
+					}
+					for _, ref := range *p.Referrers() {
+						c, ok := ref.(*ssa.Call)
+						if !ok || c.Call.Value != ssa.Value(p) || len(c.Call.Args) != 1 {
+							continue
+						}
+						if !instrDominates(e.Site, c) && !(e.Site.Block() == c.Block()) {
+							continue
+						}
+						if dependsOnConstString(c.Call.Args[0], name) {
+							cbIdx = i
+						}
+					}
+				}
+			}
+			if cbIdx >= 0 {
+				r.OK(rule, fnName(g), "reports added "+name, site, "the added name is reported to the callback the caller supplied")
+				for _, e2 := range r.P.CG.In[g] {
+					if e2.Kind != "static" || cbIdx >= len(e2.Site.Common().Args) {
+						continue
+					}
+					fs, unknown := r.P.CG.funcValues(e2.Site.Common().Args[cbIdx], map[ssa.Value]bool{})
+					okReg := len(fs) > 0 && unknown == ""
+					for _, f := range fs {
+						if len(f.Params) != 1 || !registersName(f.Params[0], 0) {
+							okReg = false
+						}
+					}
+					r.Check(okReg, rule, fnName(e2.Caller), "registers helpers added by "+fnName(g), r.P.pos(e2.Site.Pos()),
+						"the callback hands every added helper name to ScrubFields.Set", "the helpers added by "+fnName(g)+" are not registered with ScrubFields at this call (the callback it is given does not pass the name to ScrubFields.Set): they would not be removed from the response")
+				}
+				continue
 			}
 			if !reported {
 				r.Bad(rule, fnName(g), "reports added "+name, site, "a helper `"+name+"` field is added to a selection set here, but the function does not report the addition to its caller (no list of added names containing it): nobody can register it with ScrubFields, so the helper value fetched for stitching stays in the client's response")
